@@ -35,7 +35,7 @@ Definition item_grounds (it : sitem) : list ident :=
 Fixpoint rkeys (G : list ident) (items : list sitem) : list ident :=
   match items with
   | [] => []
-  | IClause _ args _ :: rest => fst (rkeys_args G [] args) ++ rkeys (snd (rkeys_args G [] args) ++ G) rest
+  | IClause _ args conds :: rest => fst (rkeys_args G [] args) ++ rkeys (flat_map cond_grounds conds ++ snd (rkeys_args G [] args) ++ G) rest
   | it :: rest => rkeys (item_grounds it ++ G) rest
   end.
 
@@ -263,10 +263,11 @@ Qed.
 Lemma rep_items_clause : forall G cs r args conds rest,
   rep_items G cs (IClause r args conds :: rest) =
   let R := rep_args G [] cs args in
-  (IClause r (ra R) (rc R ++ conds) :: fst (rep_items (rh R ++ G) (rs R) rest), snd (rep_items (rh R ++ G) (rs R) rest)).
+  (IClause r (ra R) (rc R ++ conds) :: fst (rep_items (flat_map cond_grounds conds ++ rh R ++ G) (rs R) rest),
+   snd (rep_items (flat_map cond_grounds conds ++ rh R ++ G) (rs R) rest)).
 Proof.
   intros. cbn [rep_items]. destruct (rep_args G [] cs args) as [[[a c] h] s]. cbn [ra rc rh rs fst snd].
-  destruct (rep_items (h ++ G) s rest). reflexivity.
+  destruct (rep_items (flat_map cond_grounds conds ++ h ++ G) s rest). reflexivity.
 Qed.
 Lemma rep_items_other : forall G cs it rest, (forall r args conds, it <> IClause r args conds) ->
   rep_items G cs (it :: rest) = (it :: fst (rep_items (item_grounds it ++ G) cs rest), snd (rep_items (item_grounds it ++ G) cs rest)).
@@ -298,7 +299,7 @@ Proof.
     + rewrite rep_items_clause. cbn [fst all_envs_s]. cbn [rkeys] in *. rewrite gen_trace_app in *.
       destruct (rep_args_state args G [] cs0 Hat1) as [Es Eh]. rewrite <- Es, <- Eh in *.
       set (R := rep_args G [] cs0 args) in *.
-      set (T := gen_trace (rs R) (rkeys (rh R ++ G) items)) in *.
+      set (T := gen_trace (rs R) (rkeys (flat_map cond_grounds conds ++ rh R ++ G) items)) in *.
       destruct Hr as [Hag Htodo].
       apply (sim2_flat_map (fun a b => srel X T a b /\ bnd (item_binds (IClause r args conds) ++ B) a)).
       * apply sim2_clause. intro tup.
@@ -318,7 +319,7 @@ Proof.
           cbn in Hm' |- *; try contradiction; [|exact Logic.I].
         split; [exact Hm'|]. intros x Hx. destruct (clause_env_mono I args conds tup e e1 E1) as [M1 M2]. cbn [item_binds] in Hx.
         apply in_app_or in Hx as [Hx|Hx]; [apply M2; exact Hx | apply M1; apply Hb; exact Hx].
-      * intros a b [Hab Hba]. apply (IH (rh R ++ G) (rs R) a b (item_binds (IClause r args conds) ++ B)); try assumption.
+      * intros a b [Hab Hba]. apply (IH (flat_map cond_grounds conds ++ rh R ++ G) (rs R) a b (item_binds (IClause r args conds) ++ B)); try assumption.
         -- exact (nodup_app_r _ _ _ Hdup).
         -- intros y Hy. apply HX. apply in_or_app. right. exact Hy.
     + rewrite rep_items_other by discriminate. cbn [fst all_envs_s]. cbn [rkeys] in *.
